@@ -566,6 +566,51 @@ def add_markers(rng, prog, p, skip=()):
     return prog
 
 
+def permute_decl(rng, prog, p=0.4, skip=()):
+    """declare the frames of a framer in an order that is independent of the hierarchy (with probability p per
+    framer; framers in `skip` are left alone): a random order, or the exact reverse (every child before its
+    parent), so that `in` / `under` / `go` / `first` / `in frame` references point forward as well as backward.
+    The hierarchy itself (who is over whom, which under is primary, where transitions lead) is kept; `next`
+    keeps meaning the frame declared next, unless it is turned into an explicit target first."""
+    for i in range(len(prog["framers"])):
+        fr = prog["framers"][i]
+        n = len(fr["frames"])
+        if i in skip or n < 2 or rng.random() >= p:
+            continue
+        for _ in range(4):
+            order = list(range(n))               # order[k] = old index of the frame declared k-th
+            if rng.random() < 0.35:
+                order.reverse()
+            else:
+                rng.shuffle(order)
+            pos = {old: k for k, old in enumerate(order)}
+            explicit = rng.random() < 0.5
+            frames = []
+            for old in order:
+                f = json.loads(json.dumps(fr["frames"][old]))
+                if f.get("over") is not None:
+                    f["over"] = pos[f["over"]]
+                if f.get("under") is not None:
+                    f["under"] = pos[f["under"]]
+                for it in f["items"]:
+                    if it["t"] == "go":
+                        if isinstance(it["far"], int):
+                            it["far"] = pos[it["far"]]
+                        elif it["far"] == "next" and explicit and old + 1 < n:
+                            it["far"] = pos[old + 1]
+                    for nd in it.get("needs", []):
+                        if nd["k"] in ("ad", "up", "chg") and isinstance(nd.get("frame"), int):
+                            nd["frame"] = pos[nd["frame"]]
+                frames.append(f)
+            cand = json.loads(json.dumps(prog))
+            cand["framers"][i]["frames"] = frames
+            cand["framers"][i]["first"] = pos[first_of(fr)]
+            if valid(cand):
+                prog = cand
+                break
+    return prog
+
+
 def gen_program(rng, rich=1.0):
     """type-directed random program of the interpreted subset; always buildable by construction"""
     nsh = 3
@@ -665,8 +710,8 @@ def gen_program(rng, rich=1.0):
                 items.append({"t": "act", "ctx": rng.choice(["enter", "recur", "precur"]), "act": {"k": "done"}})
             rng.shuffle(items)
             f["items"] = items
-    return add_markers(rng, {"ticks": rng.choice([4, 6, 8, 10, 12]), "period": rng.choice([8, 8, 4, 2, 1]),
-                             "shares": [rng.randrange(3) for _ in range(nsh)], "framers": framers}, 0.12)
+    return permute_decl(rng, add_markers(rng, {"ticks": rng.choice([4, 6, 8, 10, 12]), "period": rng.choice([8, 8, 4, 2, 1]),
+                                               "shares": [rng.randrange(3) for _ in range(nsh)], "framers": framers}, 0.12))
 
 
 def shrink_program(prog):
@@ -877,8 +922,9 @@ def gen_susp(rng, full=False, share=0.04):
             rng.shuffle(its)
         framers[m] = {"sched": "active" if rng.random() < 0.9 else "inactive",
                       "first": rng.randrange(n) if rng.random() < 0.2 else None, "frames": frames}
-    return add_markers(rng, {"ticks": rng.choice([6, 8, 10, 12, 14]), "period": rng.choice([8, 8, 4, 1]),
-                             "shares": [0, rng.randrange(3), rng.randrange(3)], "framers": framers}, 0.08, skip=(0,))
+    return permute_decl(rng, add_markers(rng, {"ticks": rng.choice([6, 8, 10, 12, 14]), "period": rng.choice([8, 8, 4, 1]),
+                                               "shares": [0, rng.randrange(3), rng.randrange(3)], "framers": framers},
+                                         0.08, skip=(0,)), skip=(0,))
 
 
 def fill_recs(prog, rng=None):
@@ -1077,8 +1123,8 @@ def gen_guards(rng):
     if rng.random() < 0.5 and nmain >= 1:       # the clock (re)starts a main framer at some tick
         cframes[-1]["items"].append({"t": "act", "ctx": "enter", "act": {"k": "bid", "ctl": "start",
                                                                           "targets": [rng.randrange(1, 1 + nmain)]}})
-    return add_markers(rng, {"ticks": rng.choice([8, 10, 12]), "period": rng.choice([8, 4, 1]),
-                             "shares": [0, init_v1, 0], "framers": framers}, 0.3, skip=(0,))
+    return permute_decl(rng, add_markers(rng, {"ticks": rng.choice([8, 10, 12]), "period": rng.choice([8, 4, 1]),
+                                               "shares": [0, init_v1, 0], "framers": framers}, 0.3, skip=(0,)), skip=(0,))
 
 
 def gen_auxes(rng, named_done=True):
@@ -1191,4 +1237,5 @@ def gen_auxes(rng, named_done=True):
                 its.append({"t": "act", "ctx": "recur", "act": {"k": "bid", "ctl": rng.choice(["stop", "abort"]), "targets": ["me"]}})
             rng.shuffle(its)
         framers[m] = {"sched": "active", "first": rng.randrange(n) if rng.random() < 0.25 else None, "frames": frames}
-    return {"ticks": rng.choice([6, 8, 10, 12]), "period": rng.choice([8, 4, 1]), "shares": [0, 0, 0], "framers": framers}
+    return permute_decl(rng, {"ticks": rng.choice([6, 8, 10, 12]), "period": rng.choice([8, 4, 1]), "shares": [0, 0, 0],
+                              "framers": framers}, skip=(0,))
